@@ -110,10 +110,10 @@ fn entries_for(list: &[TokenTree], out: &mut Vec<String>) {
                 } else {
                     "none".into()
                 };
-                let strv = if let syn::Expr::Lit(syn::ExprLit { lit: syn::Lit::Str(s), .. }) = &e {
-                    hex(s.value().as_bytes())
-                } else {
-                    "none".into()
+                // a PLAIN string literal: one that carries attributes is an ordinary expression for the macro
+                let strv = match &e {
+                    syn::Expr::Lit(syn::ExprLit { attrs, lit: syn::Lit::Str(s) }) if attrs.is_empty() => hex(s.value().as_bytes()),
+                    _ => "none".into(),
                 };
                 out.push(format!("(E {} ok {} {} {} {} {})", key, n, uexpr(&e), range, strv, unx(u)));
             }
